@@ -19,7 +19,9 @@
     outcome ([Ok] or [Err], the state of an [Err] being the state at the raise
     point; a [RuntimeError] of a full table, [max_nodes], included: in the
     comparisons [u <= v], [u < v] the temporary [~ self] dies with the frame
-    that the exception unwinds).  Dynamic reordering is disabled
+    that the exception unwinds; the limit is set through the wrapper by
+    [ASetMaxNodes n], [bdd._bdd.max_nodes = n], an allowed operation with any
+    value: [Properties/C08_full.v]).  Dynamic reordering is disabled
     ([last_len = None]).  Outside the
     alphabet: [AReorder] (covered conditionally by
     [C08_with_reorder_partial]), [AConfigure (Some true)] and
